@@ -12,7 +12,8 @@
    Quantifiers of the theorems: every set of chain versions, every fork point above what the node ever called finalized,
    every fork content, every finite interleaving of {node moves, downloader polls (failing ones included), driver
    hand-overs, detector ticks (failing finalized query / failing k-th header query / blocks not found), stop+start, stop
-   between AddBlockToTrack and ProcessBlock}, every chunk >= 1.
+   between AddBlockToTrack and ProcessBlock, stop while the subscriber is being notified of a reorg (mismatch found,
+   processor.Reorg not yet run)}, every chunk >= 1.
 
    Hypotheses, all explicit in the statements:
    (W)  [ev_ok (EWorld w)]: a block the node ever reported as finalized is never replaced; finalized answer <= head <= B;
@@ -142,6 +143,16 @@ Theorem restart_preserves_Inv : forall cfg, 1 <= c_chunk cfg -> forall (U : vers
   SInv cfg U B LIM r (do_restart s) /\ y_det (do_restart s) = y_det s /\ y_store (do_restart s) = y_store s /\
   (Tight s -> Tight (do_restart s)).
 Proof. exact restart_proof. Qed.
+
+(* stop during the reorg hand-over: the node is stopped after the tick has found the mismatch and notified the subscriber,
+   before processor.Reorg has run, and is started again.  The invariant survives because the tracked range is deleted only
+   AFTER ReorgProcessed (source fact src_notify_before_range_delete): the headers the notification was made from are still
+   in the DB, so every replaced processed block is still tracked after the start, the next successful tick reports a block
+   at or below it (rewind_at_or_before_first_replaced) and the convergence theorems below apply unchanged.
+   (This event is also a case of step_preserves_Inv / tracked_covers_processed: it is a constructor of [event].) *)
+Theorem crash_during_notify_preserves_Inv : forall cfg, 1 <= c_chunk cfg -> forall (U : version -> Prop) B LIM,
+  LIM < M64 -> forall r s ferr errat, SInv cfg U B LIM r s -> SInv cfg U B LIM r (do_crash_notify s ferr errat).
+Proof. exact step_crash_notify. Qed.
 
 (* converge_on_quiescent_chain, safety half.  From ANY reachable state whose queued blocks carry hashes of the node's
    chain (e.g. the channel is empty, or the driver has drained it): one tick whose RPCs succeed, then ANY admissible events
@@ -293,6 +304,20 @@ Proof.
   - vm_compute. repeat split; reflexivity.
 Qed.
 
+(* stop during the hand-over, concretely: A processed (1 final, 3 tracked), the node switches to B, the tick finds the
+   mismatch at 3 and the node is stopped before processor.Reorg: after the start block 3 of A is still stored AND still
+   tracked; the next tick rewinds to 3 and the node ends with the reference store of B *)
+Definition ex_script_notify := [EPoll false; EPoll false; EHandleAll; EWorld ex_w1; ECrashNotify false None].
+Definition ex_script_notify_tail := [ETick false None; EPoll false; EPoll false; EHandleAll; EWorld ex_w2; EPoll false; EPoll false;
+                                     EHandleAll; ETick false None].
+Example C06_crash_during_notify_nonvacuous :
+  let s1 := run ex_cfg (sys_init ex_w0) ex_script_notify in
+  let s2 := run ex_cfg s1 ex_script_notify_tail in
+  map p_num (y_store s1) = [1; 3] /\ t_mem (y_det s1) = [(3, 4)] /\ t_db (y_det s1) = [(3, 4)] /\ y_rewinds s1 = [] /\
+  y_rewinds s2 = [3] /\ filter has_events (y_store s2) = ref_store ex_cfg exB 5 /\ lp (y_store s2) = 5 /\
+  t_mem (y_det s2) = [] /\ t_db (y_det s2) = [].
+Proof. vm_compute. repeat split; reflexivity. Qed.
+
 (* REFUTED without [Tight] (faithful model, replayed on the real code: harness/c06/testdata/midcrash_false_rewind.json):
    the node is stopped inside handleNewBlock after AddBlockToTrack(3, hash under A) and before ProcessBlock; it starts
    again; the node is now on fork B where block 3 has no events; block 4 of B is downloaded and processed.  Every processed
@@ -324,6 +349,7 @@ Print Assumptions rewind_at_or_before_first_replaced.
 Print Assumptions no_false_rewind_sys.
 Print Assumptions tight_preserved.
 Print Assumptions restart_preserves_Inv.
+Print Assumptions crash_during_notify_preserves_Inv.
 Print Assumptions converge_on_quiescent_chain.
 Print Assumptions converge_download_is_C05_run.
 Print Assumptions converge_progress.
